@@ -24,7 +24,7 @@ CFG = dict(
              "duplicate, empty key); sizes N*255+r for N in 0..3(4) and r in {0,1,127,254} shuffled, with duplicates of the rows "
              "around every block boundary prepended/appended, run sizes 1/64/4096/huge, workers 1/3/4/8/16; all C01 random "
              "configurations, one third through Sorter.AddRow + Inserter.IngestTableFromSorter (cells with CRLF allowed); "
-             "wrgl commit + doctor over the repository. forced worker schedules as in C01; one table of 1025 blocks (261121 rows; thorough also 1023 and 1024 blocks) read back through objects.GetTable with counts only; "
+             "wrgl commit + doctor over the repository. EVERY completion order of 3 and 4 blocks (6 + 24 permutations) and random orders of 5 and 6 blocks as in C01; forced worker schedules as in C01; one table of 1025 blocks (261121 rows; thorough also 1023 and 1024 blocks) read back through objects.GetTable with counts only; "
              "merge results (kind 4): base + 2 branches of 6..600 rows over (a,b,c) key a with non-conflicting edits (modified/removed/"
              "added by one branch or identically by both, forced at keys 253..256 and 509..511), workers 1/3/4/6/8 incl. forced "
              "schedules; doctor re-ingest (kind 5): sorted tables of 3..520 rows with rows stored twice (also across the 255/510 block "
